@@ -200,6 +200,12 @@ func whArgs(u iuses) string {
 	if u.H {
 		s += " H"
 	}
+	if u.S {
+		s += " hSize"
+	}
+	if u.B {
+		s += " hBlockSize"
+	}
 	return s + impAbsArgs
 }
 
@@ -210,6 +216,12 @@ func whParams(u iuses) string {
 	}
 	if u.H {
 		s += " (H : Bytes → Bytes)"
+	}
+	if u.S {
+		s += " (hSize : Int)"
+	}
+	if u.B {
+		s += " (hBlockSize : Int)"
 	}
 	return s + impAbsParams
 }
@@ -341,6 +353,20 @@ func (f *impFn) simple(s ast.Stmt, prev ast.Stmt, c *ictx) []string {
 			}
 			return []string{"let " + lname(id.Name) + " := " + es}
 		}
+		if ix, ok := v.Lhs[0].(*ast.IndexExpr); ok && v.Tok == token.ASSIGN {
+			if id, ok := ix.X.(*ast.Ident); ok {
+				if t := f.lookup(id.Name); t != nil && t.k == "slice" {
+					// x[j] = v on a local buffer that is only ever created by make and never aliased: a value update
+					f.checkFreshLocal(s, id.Name)
+					js, jt := f.expr(ix.Index, tyInt, c)
+					es, et := f.expr(v.Rhs[0], t.elem, c)
+					if jt.k != "int" || !et.eq(t.elem) {
+						p.die(s, "element write types")
+					}
+					return []string{"let " + lname(id.Name) + " := setAt " + lname(id.Name) + " " + parenImp(js) + " " + parenImp(es)}
+				}
+			}
+		}
 		lt := f.lhsType(v.Lhs[0], c)
 		es, et := f.expr(v.Rhs[0], lt, c)
 		if !et.eq(lt) {
@@ -403,6 +429,38 @@ func (f *impFn) simple(s ast.Stmt, prev ast.Stmt, c *ictx) []string {
 				if mk, ok := pa.Rhs[0].(*ast.CallExpr); ok && exprText(mk.Fun) == "make" {
 					okPrev = true
 				}
+			}
+			if se, ok := call.Args[0].(*ast.SliceExpr); ok {
+				// copy(x[a:b], src) into a window of a local buffer that is only ever created by make and never aliased
+				id, isId := se.X.(*ast.Ident)
+				if !isId || se.Max != nil {
+					p.die(s, "copy into a slice expression of something that is not a local variable")
+				}
+				f.checkFreshLocal(s, id.Name)
+				xs, xt := f.expr(se.X, nil, c)
+				if xt.k != "slice" {
+					p.die(s, "copy into %v", xt)
+				}
+				lo, hi := "0", "len "+parenImp(xs)
+				if se.Low != nil {
+					ls, lt := f.expr(se.Low, tyInt, c)
+					if lt.k != "int" {
+						p.die(s, "slice bound type")
+					}
+					lo = ls
+				}
+				if se.High != nil {
+					hs, ht := f.expr(se.High, tyInt, c)
+					if ht.k != "int" {
+						p.die(s, "slice bound type")
+					}
+					hi = hs
+				}
+				ss, st := f.expr(call.Args[1], xt, c)
+				if !st.eq(xt) {
+					p.die(s, "copy(%v, %v)", xt, st)
+				}
+				return []string{"let " + lname(id.Name) + " := copyAt " + parenImp(xs) + " " + parenImp(lo) + " " + parenImp(hi) + " " + parenImp(ss)}
 			}
 			if !okPrev {
 				p.die(s, "copy(dst, …) whose dst was not created by make in the statement just before (dst could be aliased)")
@@ -477,8 +535,7 @@ func (f *impFn) enter(k *kont, c *ictx, ind string) string {
 	f.popTo(k.depth)
 	f.nonNil = copySet(k.nonNil)
 	if k.call != "" {
-		c.uses.W = c.uses.W || k.uses.W
-		c.uses.H = c.uses.H || k.uses.H
+		c.uses.or(k.uses)
 		return ind + k.call
 	}
 	return f.seq(k.list, k.next, c, ind, nil, k.top)
@@ -874,8 +931,7 @@ func (f *impFn) rangeStmt(v *ast.RangeStmt, rest []ast.Stmt, k *kont, c *ictx, i
 		f.name, f.lineNo(v), map[bool]string{true: keyName, false: "_, " + valName}[byIndex], exprText(v.X),
 		name, whParams(*u), strings.Join(append([]string{""}, roParams...), " "), sig, resTy, pats, base, pat, pats, body)
 	f.helpers = append(f.helpers, def)
-	c.uses.W = c.uses.W || u.W
-	c.uses.H = c.uses.H || u.H
+	c.uses.or(*u)
 	f.popTo(depth0)
 	over := parenImp(xs)
 	if byIndex {
@@ -1071,8 +1127,7 @@ func (f *impFn) forStmt(v *ast.ForStmt, rest []ast.Stmt, k *kont, c *ictx, ind s
 	def := fmt.Sprintf("/-- %s, line %d: `%s { … }`; the first argument bounds the number of iterations -/\ndef %s%s%s : %s → %s\n  | 0%s => %s\n  | fuel_ + 1%s =>\n    if %s then\n%s\n    else\n    %s\n",
 		f.name, f.lineNo(v), strings.TrimSpace(condTxt), name, whParams(*u), strings.Join(append([]string{""}, roParams...), " "), sig, resTy, pats, exit, pats, cond, body, exit)
 	f.helpers = append(f.helpers, def)
-	c.uses.W = c.uses.W || u.W
-	c.uses.H = c.uses.H || u.H
+	c.uses.or(*u)
 	callTxt := name + whArgs(*u) + roArgs + " " + fuel + " " + strings.Join(lnames(S), " ")
 	// the loop variable of the init statement goes out of scope; the other state variables keep their new values
 	f.popTo(depth0)
@@ -1121,4 +1176,62 @@ func (f *impFn) loopGuards(S []string) {
 			}
 		}
 	}
+}
+
+// x is a local slice variable that is only ever assigned `make(…)` and is never copied to another variable / stored / re-sliced
+// into a value, so that no alias of its backing array exists: in-place writes to it are value updates
+func (f *impFn) checkFreshLocal(at ast.Node, x string) {
+	for _, fl := range f.fd.Type.Params.List {
+		for _, n := range fl.Names {
+			if n.Name == x {
+				f.p.die(at, "in-place write to the parameter %s (could be aliased by the caller)", x)
+			}
+		}
+	}
+	strip := func(e ast.Expr) string {
+		for {
+			switch v := e.(type) {
+			case *ast.ParenExpr:
+				e = v.X
+			case *ast.SliceExpr:
+				e = v.X
+			case *ast.Ident:
+				return v.Name
+			default:
+				return ""
+			}
+		}
+	}
+	ast.Inspect(f.fd.Body, func(n ast.Node) bool {
+		switch s := n.(type) {
+		case *ast.AssignStmt:
+			for i, l := range s.Lhs {
+				if id, ok := l.(*ast.Ident); ok && id.Name == x && i < len(s.Rhs) {
+					if mk, ok := s.Rhs[i].(*ast.CallExpr); !ok || exprText(mk.Fun) != "make" {
+						f.p.die(s, "%s is written in place but assigned something else than make(…)", x)
+					}
+				}
+			}
+			for _, r := range s.Rhs {
+				if strip(r) == x {
+					f.p.die(s, "%s is written in place and aliased here", x)
+				}
+			}
+		case *ast.CompositeLit:
+			for _, e := range s.Elts {
+				if strip(e) == x {
+					f.p.die(s, "%s is written in place and stored here", x)
+				}
+			}
+		case *ast.CallExpr:
+			if exprText(s.Fun) == "append" {
+				for _, a := range s.Args {
+					if strip(a) == x {
+						f.p.die(s, "%s is written in place and appended here", x)
+					}
+				}
+			}
+		}
+		return true
+	})
 }
